@@ -5,3 +5,5 @@
 import RosuModel.Props.C16Surplus
 import RosuModel.Props.C16Ieee
 import RosuModel.Props.C16IeeeLen
+import RosuModel.Props.C16IeeeAdj
+import RosuModel.Props.C16IeeeAdjWitness
